@@ -150,6 +150,8 @@ fn c13_special_plans(tier: Tier) -> Vec<Plan> {
         s.max_steps = 40;
         plans.push(Plan { scn: s, bound: 1 });
     }
+    // (round 7) 80 000 commands are still one block (2 MB on the wire; default schedule)
+    plans.push(Plan { scn: crate::props::loopprops::huge_list(tier), bound: 0 });
     // an empty typed list is empty whatever state the connection is in (also after it has ended)
     {
         let mut s = Scenario::new(
